@@ -153,7 +153,7 @@ pub fn gen_setup(r: &mut Rng, o: &GenOpts) -> Option<SPDC> {
     BeamWaist { x: wpx * M, y: wpy * M },
   )
   .into();
-  let apod = if poled { gen_apodization(r, l) } else { Apodization::Off };
+  let apod = if poled && !o.plane_wave { gen_apodization(r, l) } else { Apodization::Off };
   let pp = if poled {
     let p = r.log_range(2e-6, 200e-6) * if r.coin() { 1.0 } else { -1.0 };
     PeriodicPoling::new(p * M, apod)
@@ -1122,11 +1122,15 @@ fn c07_cases(ctx: &mut Ctx) {
         let k2 = s2.joint_spectrum(sinteg).schmidt_number(range);
         let h1 = s1.hom_visibility(range, sinteg);
         let h2 = s2.hom_visibility(range, sinteg);
-        (e1, e2, k1, k2, h1, h2)
+        let amax = s1.joint_spectrum(sinteg).jsa_range(range).iter().map(|z| z.norm()).fold(0.0, f64::max);
+        (e1, e2, k1, k2, h1, h2, amax)
       });
       match r {
         None => ctx.s("C07.linear", false, "linear/rates-panic", &det),
-        Some((e1, e2, k1, k2, h1, h2)) => {
+        Some((e1, e2, k1, k2, h1, h2, amax)) => {
+          // σ⁴ (Schmidt) and |f|² sums (HOM) must stay inside the f64 range for both scales
+          let c = f.sqrt();
+          let amp_ok = amax * c.min(1.0) > 1e-70 && amax * c.max(1.0) < 1e70;
           let rates = [
             (e1.coincidences.value_unsafe, e2.coincidences.value_unsafe, "coincidences"),
             (e1.signal_singles.value_unsafe, e2.signal_singles.value_unsafe, "signal-singles"),
@@ -1149,17 +1153,44 @@ fn c07_cases(ctx: &mut Ctx) {
             let e = rel_err(e1.symmetric, e2.symmetric).max(rel_err(e1.signal, e2.signal)).max(rel_err(e1.idler, e2.idler));
             worst_inv = worst_inv.max(e);
             ctx.s("C07.invariant", e <= 1e-9, "invariant/efficiencies", &format!("relerr={:e} eff=({:e},{:e},{:e}) eff_scaled=({:e},{:e},{:e}) {}", e, e1.symmetric, e1.signal, e1.idler, e2.symmetric, e2.signal, e2.idler, det));
+            if !amp_ok {
+              ctx.count("c07/schmidt-hom/amplitudes-outside-f64-fourth-power-range");
+            }
             match (k1, k2) {
+              _ if !amp_ok => {}
               (Ok(k1), Ok(k2)) if k1.is_finite() && k2.is_finite() => {
                 let e = rel_err(k1, k2);
                 worst_inv = worst_inv.max(e);
-                ctx.s("C07.invariant", e <= 1e-9, "invariant/schmidt", &format!("relerr={:e} K={:e} K_scaled={:e} {}", e, k1, k2, det));
+                let mut diag = String::new();
+                if e > 1e-9 {
+                  // diagnostics: are the amplitudes proportional, and is the pure function scale invariant?
+                  let (s1, s2) = (spdc.clone(), scaled.clone());
+                  if let Some((a1, a2)) = guard(move || (s1.joint_spectrum(sinteg).jsa_range(range), s2.joint_spectrum(sinteg).jsa_range(range))) {
+                    let c = f.sqrt();
+                    let mut worst = 0.0f64;
+                    let mut amax = 0.0f64;
+                    let mut amin = f64::INFINITY;
+                    for (x, y) in a1.iter().zip(a2.iter()) {
+                      if x.norm() > 0.0 {
+                        worst = worst.max(((*y / c) - *x).norm() / x.norm());
+                        amax = amax.max(x.norm());
+                        amin = amin.min(x.norm());
+                      }
+                    }
+                    let scaled_copy: Vec<Complex<f64>> = a1.iter().map(|z| *z * c).collect();
+                    let kc = spdcalc::math::schmidt_number(&scaled_copy).unwrap_or(f64::NAN);
+                    let k0 = spdcalc::math::schmidt_number(&a1).unwrap_or(f64::NAN);
+                    diag = format!("prop_dev={:e} amax={:e} amin={:e} K_of_A={:e} K_of_cA={:e} ", worst, amax, amin, k0, kc);
+                  }
+                }
+                ctx.s("C07.invariant", e <= 1e-9, "invariant/schmidt", &format!("relerr={:e} K={:e} K_scaled={:e} {}{}", e, k1, k2, diag, det));
               }
               (Ok(_), Ok(_)) => ctx.count("c07/schmidt/non-finite"),
               (Err(_), Err(_)) => ctx.count("c07/schmidt/err-both"),
               _ => ctx.s("C07.invariant", false, "invariant/schmidt-err-one-side", &det),
             }
-            if h1.1.is_finite() && h2.1.is_finite() {
+            if !amp_ok {
+            } else if h1.1.is_finite() && h2.1.is_finite() {
               let e = (h1.1 - h2.1).abs() / h1.1.abs().max(1.0);
               ctx.s("C07.invariant", e <= 1e-9 && h1.0 == h2.0, "invariant/hom-visibility", &format!("abserr={:e} V={:e} V_scaled={:e} {}", e, h1.1, h2.1, det));
             } else {
@@ -1187,10 +1218,261 @@ fn c07_cases(ctx: &mut Ctx) {
   ctx.dist.insert("c07/max-relerr-invariance-times-1e15".to_string(), (worst_inv * 1e15) as u64);
 }
 
+
+// ------------------------------------------------------------------------------------------ C05
+
+/// erf(x)/x by its Maclaurin series (|x| ≤ 3): 2/√π Σ (-1)^n x^{2n} / (n! (2n+1))
+fn erf_over_x(x: f64) -> f64 {
+  let x2 = x * x;
+  let mut term = 1.0; // (-1)^n x^{2n}/n!
+  let mut sum = 1.0;
+  for n in 1..200 {
+    term *= -x2 / (n as f64);
+    let add = term / (2.0 * n as f64 + 1.0);
+    sum += add;
+    if add.abs() < 1e-17 * sum.abs() {
+      break;
+    }
+  }
+  2.0 / std::f64::consts::PI.sqrt() * sum
+}
+
+fn sinc_abs(x: f64) -> f64 {
+  if x == 0.0 {
+    1.0
+  } else {
+    (x.sin() / x).abs()
+  }
+}
+
+/// Δk_z·L/2 with the pump evaluated at ws+wi (the crate's own delta_k on a clone whose pump
+/// frequency is ws+wi)
+fn half_dkz_l(spdc: &SPDC, ws: f64, wi: f64) -> Option<f64> {
+  let mut s = spdc.clone();
+  guard(move || {
+    s.pump.set_frequency(w(ws) + w(wi));
+    let dk = s.delta_k(w(ws), w(wi));
+    (dk.value_unsafe.z) * s.crystal_setup.length.value_unsafe * 0.5
+  })
+}
+
+fn pm_abs(spdc: &SPDC, ws: f64, wi: f64, integ: Integrator) -> Option<f64> {
+  let s = spdc.clone();
+  guard(move || (*(phasematch_fiber_coupling(w(ws), w(wi), &s, integ) / PerMeter4::new(1.0))).norm())
+}
+
+/// walk-off parameter of the statement: x = L |tan ρ| sqrt((Ws²+Wi²)/Σ)
+fn walkoff_x(v: &View) -> (f64, f64) {
+  let wp2 = v.wpx * v.wpy;
+  let ws2 = v.sig[3] * v.sig[4];
+  let wi2 = v.idl[3] * v.idl[4];
+  let sigma = wp2 * ws2 + wp2 * wi2 + ws2 * wi2;
+  (v.l * v.rho.tan().abs() * ((ws2 + wi2) / sigma).sqrt(), sigma)
+}
+
+/// The statement's precondition "diffraction and walk-off across the crystal are negligible", made
+/// quantitative (see notes/C05.md).  Pump walk-off multiplies the integrand by exp(-x²(1+z)²/4)
+/// (x as in the statement); to first order this shifts the ratio at the first sinc zero by
+/// 0.17·x² (measured on the pinned tree: ≤ 0.06·x² at random detunings, 2.3e-3 at x = 0.2), and
+/// diffraction (eta = L/(k W²) of the tightest beam) by up to ≈ 0.4·eta (measured 5.3e-4 at
+/// eta = 1.35e-3); Simpson-50 contributes 2.4e-5.  "Negligible" is taken as: each effect stays below
+/// about a third of the statement's 1e-3.  Setups beyond these bounds are outside the sinc clause;
+/// they still take part in the peak clause, which carries the walk-off in closed form and is
+/// insensitive to diffraction (measured ≤ 3e-7 over the whole family).
+pub const C05_X_MAX: f64 = 0.04;
+pub const C05_DIFFRACTION_MAX: f64 = 1e-3;
+
+fn diffraction_param(spdc: &SPDC, v: &View) -> f64 {
+  let cs = &spdc.crystal_setup;
+  let c = 299_792_458.0;
+  let beams = [
+    (raw_w(spdc.signal.frequency()), *spdc.signal.refractive_index(spdc.signal.frequency(), cs), v.sig[3] * v.sig[4]),
+    (raw_w(spdc.idler.frequency()), *spdc.idler.refractive_index(spdc.idler.frequency(), cs), v.idl[3] * v.idl[4]),
+    (raw_w(spdc.pump.frequency()), *spdc.pump.refractive_index(spdc.pump.frequency(), cs), v.wpx * v.wpy),
+  ];
+  beams.iter().map(|(om, n, w2)| v.l / ((n * om / c) * w2)).fold(0.0, f64::max)
+}
+
+fn c05_cases(ctx: &mut Ctx) {
+  let opts = GenOpts { plane_wave: true, phase_matched: true };
+  let mut made = 0;
+  let mut tries = 0;
+  let mut worst_sinc = 0.0f64;
+  let mut worst_peak = 0.0f64;
+  while made < ctx.n && tries < 40 * ctx.n + 100 {
+    tries += 1;
+    let spdc = match gen_setup(&mut ctx.rng, &opts) {
+      Some(s) => s,
+      None => {
+        ctx.count("c05/optimum-unavailable-or-rejected");
+        continue;
+      }
+    };
+    let v = view(&spdc).unwrap();
+    let ws0 = raw_w(spdc.signal.frequency());
+    let wi0 = raw_w(spdc.idler.frequency());
+    // phase matched at the centre?  (the crate's optimum call may return a non-matching setup: C04)
+    let x0 = match half_dkz_l(&spdc, ws0, wi0) {
+      Some(x) if x.is_finite() => x,
+      _ => {
+        ctx.count("c05/dk-unavailable");
+        continue;
+      }
+    };
+    if x0.abs() > 0.5 {
+      ctx.count("c05/not-phase-matched-by-optimum");
+      continue;
+    }
+    let integ = match ctx.rng.below(4) {
+      0 => Integrator::Simpson { divs: 100 },
+      1 => Integrator::GaussLegendre { degree: 40 },
+      _ => Integrator::default(),
+    };
+    let iname = match integ {
+      Integrator::Simpson { divs } => format!("simpson{}", divs),
+      Integrator::GaussLegendre { degree } => format!("gl{}", degree),
+      _ => "other".into(),
+    };
+    let desc = describe(&spdc);
+    let (x, sigma) = walkoff_x(&v);
+    let eta = diffraction_param(&spdc, &v);
+
+    // random direction in the (ws, wi) plane; x(t) = Δk_z L / 2 along it
+    let ang = ctx.rng.range(0.0, std::f64::consts::TAU);
+    let (ds, di) = (ang.cos(), ang.sin());
+    let xt = |t: f64| half_dkz_l(&spdc, ws0 + t * ds, wi0 + t * di);
+    // slope by a central difference with a step of 1e-6 of the signal frequency
+    let h = 1e-6 * ws0.min(wi0);
+    let slope = match (xt(h), xt(-h)) {
+      (Some(a), Some(b)) => (a - b) / (2.0 * h),
+      _ => {
+        ctx.count("c05/dk-unavailable");
+        continue;
+      }
+    };
+    // the point of perfect phase matching on the line: two Newton steps from the centre
+    let mut t0 = -x0 / slope;
+    if let Some(xa) = xt(t0) {
+      t0 -= xa / slope;
+    }
+    let reach = 4.0 * std::f64::consts::PI / slope.abs();
+    let span = reach + t0.abs();
+    let ends_in_window = span.is_finite()
+      && in_window(&spdc, ws0 + span * ds, wi0 + span * di)
+      && in_window(&spdc, ws0 - span * ds, wi0 - span * di);
+    if !slope.is_finite() || slope == 0.0 || !t0.is_finite() || span > 0.25 * ws0.min(wi0) || !ends_in_window {
+      // (nearly) tangential to the phase-matching contour: ±3 zeros are not reachable on this line
+      ctx.count("c05/direction-tangential");
+      continue;
+    }
+    let xref = match xt(t0) {
+      Some(v) => v,
+      None => continue,
+    };
+    let peak = match pm_abs(&spdc, ws0 + t0 * ds, wi0 + t0 * di, integ) {
+      Some(p) if p.is_finite() && p > 0.0 => p,
+      _ => {
+        ctx.s("C05.peak", false, "peak/non-finite", &desc);
+        continue;
+      }
+    };
+    made += 1;
+    count_setup(ctx, "c05", &spdc);
+    ctx.count(&format!("c05/integrator/{}", iname));
+    ctx.count(if x == 0.0 { "c05/walkoff/none" } else if x <= C05_X_MAX { "c05/walkoff/negligible" } else { "c05/walkoff/appreciable" });
+
+    // ---- peak value vs (4/Σ) √π erf(x)/(2x)
+    let closed = 4.0 / sigma * std::f64::consts::PI.sqrt() * erf_over_x(x) / 2.0;
+    let e = (peak / closed - 1.0).abs();
+    {
+      worst_peak = worst_peak.max(e);
+      ctx.s(
+        "C05.peak",
+        e <= 1e-3,
+        "peak/closed-form",
+        &format!("relerr={:e} peak={:e} closed={:e} x={:e} eta={:e} xref={:e} integ={} {}", e, peak, closed, x, eta, xref, iname, desc),
+      );
+    }
+
+    // ---- ratio to the phase-matched value vs |sinc(Δk_z L/2)| through ±3 zeros (|x| ≤ 4π)
+    if x <= C05_X_MAX && eta <= C05_DIFFRACTION_MAX {
+      let npts = if ctx.thorough { 33 } else { 17 };
+      for k in 0..npts {
+        let frac = -1.0 + 2.0 * (k as f64 + ctx.rng.unit()) / (npts as f64);
+        // target Δk_z L/2 = frac·4π: secant steps from the linear guess (x(t) is not linear for wide detunings)
+        let target_x = frac * 4.0 * std::f64::consts::PI;
+        let mut t = t0 + target_x / slope;
+        for _ in 0..3 {
+          if let Some(xa) = xt(t) {
+            t -= (xa - target_x) / slope;
+          }
+        }
+        match xt(t) {
+          Some(xa) if xa.abs() <= 4.0 * std::f64::consts::PI + 0.5 && (t - t0).abs() <= 2.0 * reach => {}
+          _ => {
+            ctx.count("c05/sinc/target-not-reached");
+            continue;
+          }
+        }
+        let (ws, wi) = (ws0 + t * ds, wi0 + t * di);
+        let (xv, p) = match (xt(t), pm_abs(&spdc, ws, wi, integ)) {
+          (Some(a), Some(b)) => (a, b),
+          _ => {
+            ctx.s("C05.sinc", false, "sinc/panic", &format!("ws={:.17e} wi={:.17e} integ={} {}", ws, wi, iname, desc));
+            continue;
+          }
+        };
+        let ratio = p / peak;
+        let target = sinc_abs(xv);
+        let dev = (ratio - target).abs();
+        worst_sinc = worst_sinc.max(dev);
+        ctx.count(&format!("c05/lobe/{}", ((xv.abs() / std::f64::consts::PI).floor() as usize).min(4)));
+        ctx.s(
+          "C05.sinc",
+          dev < 1e-3,
+          "sinc/ratio",
+          &format!("dev={:e} ratio={:e} sinc={:e} x_dk={:e} walkoff_x={:e} eta={:e} ws={:.17e} wi={:.17e} integ={} {}", dev, ratio, target, xv, x, eta, ws, wi, iname, desc),
+        );
+      }
+    } else {
+      ctx.count("c05/sinc/walkoff-or-diffraction-not-negligible");
+    }
+
+    // ---- correspondence on this family as well: integrand and z-integral at the centre and off it
+    for t in [t0, t0 + 0.37 * reach] {
+      let (ws, wi) = (ws0 + t * ds, wi0 + t * di);
+      let st = setup_tokens(&v, &spdc, ws, wi);
+      let zs = [-1.0, 1.0, 0.0, ctx.rng.range(-1.0, 1.0), ctx.rng.range(-1.0, 1.0)];
+      let s2 = spdc.clone();
+      if let Some(o) = guard(move || {
+        let f = get_pm_integrand(w(ws), w(wi), &s2);
+        zs.iter().map(|&z| f(z)).collect::<Vec<_>>()
+      }) {
+        let o: Vec<String> = o.into_iter().map(cx).collect();
+        ctx.k("pm_integrand", &format!("{} {}", st, apod_table(&spdc, &zs)), &o.join(" "));
+      }
+      let divs = 50usize;
+      let nodes = simpson_nodes(divs);
+      let s2 = spdc.clone();
+      let out = guard(move || phasematch_fiber_coupling(w(ws), w(wi), &s2, Integrator::Simpson { divs }) / PerMeter4::new(1.0));
+      if let (Some(z), Some(sc)) = (out, simpson_abs_scale(&spdc, ws, wi, divs)) {
+        ctx.k("pm_coinc", &format!("{} {} {}", st, divs, apod_table(&spdc, &nodes)), &format!("{} {}", cx(*z), fl(sc)));
+      }
+      // Δk_z bookkeeping: ff = (L/2) Δk_z with the pump at ws+wi
+      if let Some(xv) = half_dkz_l(&spdc, ws, wi) {
+        ctx.k("half_dkz_l", &st, &fl(xv));
+      }
+    }
+  }
+  ctx.dist.insert("c05/max-dev-sinc-times-1e9".to_string(), (worst_sinc * 1e9) as u64);
+  ctx.dist.insert("c05/max-relerr-peak-times-1e9".to_string(), (worst_peak * 1e9) as u64);
+}
+
 pub fn run(ctx: &mut Ctx) {
   let mode = ctx.extra.first().cloned().unwrap_or_else(|| "k".to_string());
   match mode.as_str() {
     "k" => k_cases(ctx),
+    "c05" => c05_cases(ctx),
     "c06" => c06_cases(ctx),
     "c07" => c07_cases(ctx),
     _ => {}
